@@ -307,7 +307,7 @@ MJD_INTS = {'ebusd::DateTimeDataType::readSymbols': {14956, 15020, 54832, 1900, 
 def r6(ctx):
     ctx.rule('C05.R6', 'the modified-julian-day conversions use the constants of the standard algorithm (ETSI EN 300 468 annex '
              'C): 15078.2, 365.25, 14956.1, 30.6001, 14956, and the epoch offsets 15020 (01.01.1900) and 54832 (01.01.2009); '
-             'each constant is the calendar rule itself, any deviation shifts dates', minimum=8)
+             'each constant is the calendar rule itself, any deviation shifts dates; the January/February adjustment applies to exactly these two months in both directions', minimum=12)
     fb = ctx.fb
     for name, want in MJD_FLOATS.items():
         fn = fb.fn(name)
@@ -330,6 +330,55 @@ def r6(ctx):
         missing = sorted(MJD_INTS[name] - ints)
         ctx.ob('C05.R6', fn, fn.body, not missing, 'epoch constants in %s' % name.split('::')[-1],
                'missing %s' % missing if missing else 'all present')
+    # the January/February adjustment of the algorithm: encoding subtracts a year and adds 12 months exactly for months
+    # 1 and 2; decoding (month index m' - 1 in 3..14) carries 13 and 14 into the next year
+    import re
+    cands = [f for f in fb.functions if f.relfile.endswith('lib/ebus/datatype.cpp') and f.blocks and
+             any(str(f.nodes[x].get('fv')) in ('30.6001', '365.25') for x in f.all('FloatingLiteral'))]
+    n = 0
+    for wf in cands:
+        for nid, d, rhs, op, lhs in wf.assignments():
+            if op != 'init' or rhs is None or not d:
+                continue
+            c = wf.nodes.get(wf.strip(rhs), {})
+            if c.get('k') != 'ConditionalOperator' or wf.val(c.get('then')) != 1 or wf.val(c.get('else')) != 0:
+                continue
+            name = d.split(':')[-1]
+            used = any(re.search(r'(?<!\w)%s(?!\w)' % re.escape(name), wf.key(r2)) and '365.25' in wf.key(r2)
+                       for n2, d2, r2, o2, l2 in wf.assignments() if r2 is not None)
+            cv = wf.nodes.get(wf.strip(c['cond']), {})
+            if not used or cv.get('k') != 'BinaryOperator' or wf.val(cv.get('rhs')) is None:
+                continue
+            n += 1
+            k = wf.val(cv['rhs'])
+            months = [m for m in range(1, 13) if {'<': m < k, '<=': m <= k, '>': m > k, '>=': m >= k, '==': m == k, '!=': m != k}[cv['op']]]
+            ctx.ob('C05.R6', wf, nid, months == [1, 2], 'January/February adjustment when encoding a date',
+                   'adjusts months %s (condition %s), the algorithm adjusts 1 and 2' % (months, wf.key(c['cond'])))
+    m = 0
+    for rf in cands:
+        for nid, d, rhs, op, lhs in rf.assignments():
+            if op != '-=' or rhs is None or rf.val(rhs) != 12 or not d:
+                continue
+            name = d.split(':')[-1]
+            init = [rf.key(r2) for n2, d2, r2, o2, l2 in rf.assignments() if d2 == d and o2 == 'init' and r2 is not None]
+            if not init or '30.6001' not in init[0]:
+                continue
+            m += 1
+            carried = []
+            for mm in range(3, 15):
+                ok = True
+                for a in rf.atoms(nid):
+                    mt = re.match(r'^\(%s (<|<=|==) #(\d+)\)$' % re.escape(name), a[0])
+                    if mt:
+                        kk = int(mt.group(2))
+                        holds = {'<': mm < kk, '<=': mm <= kk, '==': mm == kk}[mt.group(1)]
+                        ok = ok and (holds == a[1])
+                if ok:
+                    carried.append(mm)
+            ctx.ob('C05.R6', rf, nid, carried == [13, 14], 'month carry when decoding a date',
+                   'month indices %s are carried into the next year, the algorithm carries 13 and 14' % carried)
+    if (n < 2 or m < 1) and not any(o['rule'] in ('C05.R6', 'C06.R5') and o['status'] == 'violated' for o in ctx.obligations):
+        raise AnalysisBroken('C05.R6: January/February adjustment sites not recognised (%d encode, %d decode)' % (n, m))
 
 
 def run(ctx):
@@ -340,5 +389,7 @@ def run(ctx):
     r4(ctx)
     r5(ctx)
     import rules.C12 as c12
-    ctx.borrow(c12.run, {'C12.R5': 'C05.R7'},
+    ctx.borrow(c12.r5, {'C12.R5': 'C05.R7'},
                'the printed precision of fixed-point and float values depends on the stream format state')
+    ctx.borrow(c12.r3, {'C12.R3': 'C05.R8'},
+               'an integer printed while the stream is still in hex mode is not the value the type defines')
